@@ -580,7 +580,7 @@ func (ex *Exec) frameTerms(st *State, ms *ModSet, names []string) []frameTerm {
 			out = append(out, frameTerm{name, Implies(hyp, Eq(Select(cur, w), Select(old, w)))})
 		case strings.HasPrefix(d, "G:"):
 			name := d[2:]
-			if ms.Ghost[name] || name == "maxalloc" || name == "nalloc" {
+			if ms.Ghost[name] {
 				continue
 			}
 			cur, ok := st.Ghost[name]
